@@ -561,6 +561,11 @@ pub fn enable_log_capture() {
     log::set_max_level(log::LevelFilter::Trace);
 }
 
+/// Switch rendering of log records on this thread on/off (used by the C07 tracer, which cannot use a closure).
+pub fn set_log_buffer(active: bool) {
+    LOG_BUF.with(|b| *b.borrow_mut() = if active { Some(Vec::new()) } else { None });
+}
+
 /// Run `f` collecting the log records emitted on this thread.
 pub fn with_logs<T>(f: impl FnOnce() -> T) -> (T, Vec<(log::Level, String)>) {
     LOG_BUF.with(|b| *b.borrow_mut() = Some(Vec::new()));
